@@ -35,9 +35,25 @@ def frameStep (t : Tokens) (impl : Option String) : StepOut :=
         (if kvGet it "alloc" == some "ok" then [] else ["C09 framing: an oversize announcement was allocated"])
     { model := model, specFails := fails }
   | "serve" =>
-    -- bytes written back: one frame per reply, of the request's type; the legacy greeting on a legacy header
-    let written : Bytes := (ms.filterMap (fun m => (replyFor m.2).map (encodeFrame m.1))).flatten ++
-      (if e == .errLegacy then [53, 32, 48, 32, 48, 10, 0, 0, 0, 0] else [])
+    -- `wlimit=B`: the peer accepts B bytes in all and then stalls (every further write runs into its deadline).  A reply is
+    -- written as header (8 bytes) then body; the first write that cannot complete ends the connection: no later message is
+    -- handled, and what has been written is a prefix of the whole-frame stream.
+    let budget : Option Nat := (kvGet t "wlimit").bind String.toNat?
+    let (ms, cut) : List (Nat × Bytes) × Bool := match budget with
+      | none => (ms, false)
+      | some b =>
+        let rec go : List (Nat × Bytes) → Nat → List (Nat × Bytes) → List (Nat × Bytes) × Bool
+          | [], _, acc => (acc.reverse, false)
+          | m :: rest, left, acc =>
+            match replyFor m.2 with
+            | none => go rest left (m :: acc)
+            | some r => if 8 + r.length ≤ left then go rest (left - (8 + r.length)) (m :: acc) else ((m :: acc).reverse, true)
+        go ms b []
+    let full : Bytes := (ms.filterMap (fun m => (replyFor m.2).map (encodeFrame m.1))).flatten ++
+      (if e == .errLegacy && !cut then [53, 32, 48, 32, 48, 10, 0, 0, 0, 0] else [])
+    let written : Bytes := match budget with
+      | some b => full.take b
+      | none => full
     let model := s!"msgs={dumpMsgs ms} written={toHex written} retained={dumpMsgs ms}"
     let fails := match impl with
       | none => []
